@@ -1,13 +1,121 @@
-(** C19 — property theorems (statements only; proofs are in C19/Proofs.v). *)
+(** C19 — property theorems (statements only; proofs are in C19/Proofs.v).
+
+    Vocabulary: [mgr_new c max_flows max_rx] is [UdpManager::new]; [step hash m
+    now i] is one public call ([handle_input] / [handle_timeout] / [abort_flow]
+    / [close_all]) returning the new manager and the outputs it queued, each
+    tagged with the (ghost) incarnation number of the flow it was emitted for;
+    [run hash m h] folds [step] over a history [h : list (N * input)] of
+    timestamped inputs and returns the final manager and the trace.  [hash] (the
+    affinity [DefaultHasher]) is universally quantified everywhere.  No theorem
+    restricts the history: clocks may even go backwards. *)
 From Coq Require Import List NArith Bool Arith Lia.
 From SV Require Import Common.Slab C19.Model C19.Proofs.
 Import ListNotations.
 
-Theorem slab_insert_spec :
-  forall (s : slab flow) v k, slab_wf s ->
-    slab_wf (fst (sinsert s v)) /\ sget s (snd (sinsert s v)) = None /\
-    sget (fst (sinsert s v)) k = if Nat.eqb k (snd (sinsert s v)) then Some v else sget s k.
-Proof.
-  intros s v k H. rewrite sinsert_key. split; [apply sinsert_wf; exact H|].
-  split; [apply sinsert_fresh; exact H | apply sget_sinsert; exact H].
-Qed.
+(** 1. [invariants]: everything [UdpManager::check_invariants] asserts (and the
+    stronger facts listed at [Inv] in Proofs.v: table and slab in bijection
+    through each flow's own admission key, no Closing flow, Established <->
+    backend address, Awaiting -> a buffered datagram, no live flow with an
+    exhausted cap, armed deadline = earliest flow deadline, population under
+    the high-water cap, exact slab free list) holds after EVERY history. *)
+Theorem invariants :
+  forall hash c max_flows max_rx h, Inv (fst (run hash (mgr_new c max_flows max_rx) h)).
+Proof. intros. apply run_inv. apply Inv_new. Qed.
+
+Theorem invariants_table_injective :
+  forall m k1 k2 id, Inv m ->
+    tget (m_table m) k1 = Some id -> tget (m_table m) k2 = Some id -> k1 = k2.
+Proof. exact table_injective. Qed.
+
+Theorem invariants_timer_is_earliest_deadline :
+  forall m, Inv m ->
+    match m_armed m with
+    | None => forall id, sget (m_flows m) id = None
+    | Some d => (exists id f, sget (m_flows m) id = Some f /\ f_deadline f = d) /\
+                (forall id f, sget (m_flows m) id = Some f -> (d <= f_deadline f)%N)
+    end.
+Proof. exact armed_coherent. Qed.
+
+(** 4. [bounded] *)
+Theorem bounded_admission_only_under_cap :
+  forall hash m now inp i, Inv m ->
+    In (Some i, Metric MCreated) (snd (step hash m now inp)) ->
+    m_draining m = false /\ (N.of_nat (slen (m_flows m)) < m_max_flows m)%N /\
+    (exists src p, inp = IClient src p /\ p <> [] /\
+                   tget (m_table m) (key_of src (c_with_port (m_cluster m))) = None) /\
+    i = m_ninc m.
+Proof. exact created_only_under_cap. Qed.
+
+Theorem bounded_population_under_high_water :
+  forall hash c max_flows max_rx h,
+    let m := fst (run hash (mgr_new c max_flows max_rx) h) in
+    (N.of_nat (slen (m_flows m)) <= m_hw m)%N /\ (m_max_flows m <= m_hw m)%N.
+Proof. intros. apply inv_hw. apply invariants. Qed.
+
+Theorem bounded_existing_flows_keep_forwarding :
+  forall hash m now src p id f b, Inv m ->
+    (N.of_nat (length p) <= m_max_rx m)%N -> c_cluster (m_cluster m) <> [] -> p <> [] ->
+    tget (m_table m) (key_of src (c_with_port (m_cluster m))) = Some id ->
+    sget (m_flows m) id = Some f -> f_backend_addr f = Some b ->
+    exists hdr, (hdr = [] \/ hdr = dgram_header (f_client f) b) /\
+      In (Some (f_inc f), SendToBackend b (hdr ++ p)) (snd (step hash m now (IClient src p))).
+Proof. exact established_keeps_forwarding. Qed.
+
+(** 5. [teardown]: timers strictly advance; close_all leaves nothing *)
+Theorem timeout_advances :
+  forall hash m now, Inv m ->
+    let m' := fst (step hash m now ITimeout) in
+    (forall id g, sget (m_flows m') id = Some g -> (now < f_deadline g)%N) /\
+    (forall d, m_armed m' = Some d -> (now < d)%N).
+Proof. exact timeout_advances. Qed.
+
+Theorem close_all_leaves_nothing :
+  forall hash m now, Inv m ->
+    let m' := fst (step hash m now ICloseAll) in
+    (forall id, sget (m_flows m') id = None) /\ slen (m_flows m') = 0 /\
+    (forall k, tget (m_table m') k = None) /\ m_armed m' = None.
+Proof. exact close_all_leaves_nothing. Qed.
+
+(** 2. [sticky], state part: a stale or duplicate resolution changes nothing *)
+Theorem sticky_stale_resolution_is_noop :
+  forall hash m now id bid a,
+    (forall f, sget (m_flows m) id = Some f -> f_phase f <> Awaiting) ->
+    fst (step hash m now (IResolved id bid a)) = m /\
+    forall x, In x (snd (step hash m now (IResolved id bid a))) -> fst x = None.
+Proof. exact stale_resolution_noop. Qed.
+
+(* ------------------------------------------------------------------ *)
+(** Non-vacuity: a concrete history reaching two established flows, one of them
+    at the cap, a shed third source, a reply, a timeout and a close_all. *)
+Definition ex_hash (_ : bool) (a : addr) : N := a_port a.
+Definition ex_cfg : cfg := mkcfg [99%N] true 0 0 100 100 true false.
+Definition ex_a1 := mkaddr [10;0;0;1]%N 9000.
+Definition ex_a2 := mkaddr [10;0;0;2]%N 9000.
+Definition ex_a3 := mkaddr [10;0;0;3]%N 9000.
+Definition ex_b := mkaddr [127;0;0;1]%N 5300.
+Definition ex_hist : list (N * input) :=
+  [(0, IClient ex_a1 [1;2;3]); (0, IResolved 0 [98] ex_b); (1, IClient ex_a2 [4]);
+   (1, IResolved 1 [98] ex_b); (2, IClient ex_a3 [5]); (3, IClient ex_a1 [6;7]);
+   (4, IBackend 0 [8;9]); (5, IResolved 0 [97] ex_a3)]%N.
+
+Example invariants_nonvacuous :
+  let m := fst (run ex_hash (mgr_new ex_cfg 2 8) ex_hist) in
+  slen (m_flows m) = 2 /\ m_armed m = Some 101%N /\
+  exists f, sget (m_flows m) 0 = Some f /\ f_backend_addr f = Some ex_b /\ f_req f = 2%N /\ f_resp f = 1%N.
+Proof. vm_compute. repeat split. eexists. repeat split. Qed.
+
+Example bounded_nonvacuous :
+  let m := fst (run ex_hash (mgr_new ex_cfg 2 8) ex_hist) in
+  (* the third source is shed at the cap, the first keeps forwarding *)
+  In (None, Metric MShed) (snd (step ex_hash m 6 (IClient ex_a3 [5]%N))) /\
+  In (Some 0%N, SendToBackend ex_b [6;6]%N) (snd (step ex_hash m 6 (IClient ex_a1 [6;6]%N))) /\
+  In (Some 2%N, Metric MCreated)
+     (snd (step ex_hash (fst (step ex_hash m 6 (IAbort 1))) 6 (IClient ex_a3 [5]%N))).
+Proof. vm_compute. repeat split; auto 10. Qed.
+
+Example teardown_nonvacuous :
+  let m := fst (run ex_hash (mgr_new ex_cfg 2 8) ex_hist) in
+  slen (m_flows (fst (step ex_hash m 101 ITimeout))) = 1 /\
+  m_armed (fst (step ex_hash m 101 ITimeout)) = Some 104%N /\
+  slen (m_flows (fst (step ex_hash m 7 ICloseAll))) = 0.
+Proof. vm_compute. repeat split. Qed.
